@@ -1,6 +1,7 @@
 package selftest
 
 import (
+	"context"
 	"fmt"
 	"sort"
 	"strings"
@@ -190,6 +191,26 @@ func TestCtxCancelTree(t *testing.T) {
 		vs.Recv(done)
 	})
 	if len(set) != 1 || !set["err=context canceled"] {
+		t.Fatalf("outcomes: %s", keys(set))
+	}
+}
+
+// context.WithoutCancel: the values of the parent without its cancellation; contexts derived from it have a
+// cancellation tree of their own (cancelling the original parent does not reach them, their own timeout does).
+func TestCtxWithoutCancel(t *testing.T) {
+	type key struct{}
+	set, _ := outcomes(t, "ctx-without-cancel", -1, func() {
+		parent, cancel := vs.WithCancel(context.WithValue(bg(), key{}, "v"))
+		detached := vs.WithoutCancel(parent)
+		child, cancelChild := vs.WithTimeout(detached, time.Hour)
+		defer cancelChild()
+		cancel()
+		vs.Note("value=%v parentErr=%v detachedErr=%v childErr=%v", child.Value(key{}), parent.Err(), detached.Err(), child.Err())
+		vs.Sleep(2 * time.Hour)
+		vs.Note("after the timeout: childErr=%v", child.Err())
+	})
+	want := "value=v parentErr=context canceled detachedErr=<nil> childErr=<nil>,after the timeout: childErr=context deadline exceeded"
+	if len(set) != 1 || !set[want] {
 		t.Fatalf("outcomes: %s", keys(set))
 	}
 }
